@@ -306,6 +306,48 @@ func init() {
 					}
 					judgeProgram(c, []model.Stmt{model.Text{S: "s|"}, loop, model.Text{S: "|e"}}, data, "ctl-if", true)
 				}})
+			// (5b) Go-native data as conditions: nil slices and maps are empty arrays and objects (truthy), nil pointers are nil (falsy)
+			type natCond struct {
+				name   string
+				v      any
+				truthy bool
+			}
+			var nilInts []int
+			var nilAny []any
+			var nilMap map[string]any
+			var nilPtr *rowStruct
+			zero, one := 0, 1
+			empty, space := "", " "
+			f := false
+			natives := []natCond{
+				{"nil []int", nilInts, true}, {"nil []any", nilAny, true}, {"empty []string", []string{}, true}, {"[]int{0}", []int{0}, true},
+				{"nil map", nilMap, true}, {"empty map", map[string]any{}, true}, {"nil *struct", nilPtr, false}, {"&struct{}", &rowStruct{}, true}, {"struct{}", rowStruct{}, true},
+				{"uint8(0)", uint8(0), false}, {"int64(0)", int64(0), false}, {"float32(0)", float32(0), false}, {"uint(3)", uint(3), true}, {"float32(0.5)", float32(0.5), true},
+				{"*int -> 0", &zero, false}, {"*int -> 1", &one, true}, {"*string -> \"\"", &empty, false}, {"*string -> \" \"", &space, true}, {"*bool -> false", &f, false},
+				{"[]*int{nil}", []*int{nil}, true}, {"[][]int{}", [][]int{}, true}, {"untyped nil", nil, false},
+			}
+			secs = append(secs, core.Section{Name: "native-conditions", Exhaustive: true, N: len(natives) * 4,
+				Run: func(c *core.Ctx, i int) {
+					nc := natives[i/4]
+					var src, want string
+					t := nc.truthy
+					switch i % 4 {
+					case 0:
+						src, want = "<@if(cnd)yes@else no@end>", map[bool]string{true: "<yes>", false: "< no>"}[t]
+					case 1:
+						src, want = "<{{ cnd ? \"yes\" : \"no\" }}>", map[bool]string{true: "<yes>", false: "<no>"}[t]
+					case 2:
+						src, want = "<@each(v in [1, 2, 3])[{{ v }}@breakIf(cnd)]@end>", map[bool]string{true: "<[1>", false: "<[1][2][3]>"}[t]
+					default:
+						src, want = "<@each(v in [1, 2])[{{ v }}@continueIf(cnd)]@end>", map[bool]string{true: "<[1[2>", false: "<[1][2]>"}[t]
+					}
+					c.Input(map[string]any{"source": src, "cnd": nc.name})
+					got := evalString(c, src, map[string]any{"cnd": nc.v})
+					c.Nontrivial(src + nc.name)
+					if !got.Panicked && (got.Err != nil || got.Out != want) {
+						c.Violation("native-condition:"+nc.name, fmt.Sprintf("with cnd = %s the render gave %s, want %q", nc.name, got.Describe(), want), map[string]any{"source": src, "cnd": nc.name})
+					}
+				}})
 			// (6) seeded random nestings
 			n, depth := 6000, 4
 			if tier == core.Thorough {
